@@ -764,6 +764,17 @@ func main() {
 		f.Close()
 		return
 	}
+	if len(os.Args) >= 2 && os.Args[1] == "engine" {
+		var j job
+		var in solveIn
+		mustRead(os.Args[2], &j)
+		mustRead(os.Args[3], &in)
+		out := engineRun(&j, &in)
+		f, _ := os.Create(os.Args[4])
+		json.NewEncoder(f).Encode(out)
+		f.Close()
+		return
+	}
 	if len(os.Args) >= 2 && os.Args[1] == "oracle" {
 		oracle(os.Args[2], os.Args[3])
 		return
